@@ -436,6 +436,9 @@ def execute(cfg, extra_next=3, want_trace=False, action_hook=None):
                     mon.v("C17", "valid-config-raises:" + ("first-next" if first else "mid-stream"), "%s: %s" % (type(e).__name__, e))
                     mon.v("C02", "stream-raises", "%s: %s" % (type(e).__name__, e))
                     mon.v("C01", "stream-raises", "%s: %s" % (type(e).__name__, e))
+                    if mon.phase != "forward" and (mon.permitted is None or mon.pass_idx >= 2):
+                        mon.v("C09", "repeat-raises", "adjoint calculation %d of a class that permits %s raised %s: %s" % (
+                            mon.pass_idx, "arbitrarily many" if mon.permitted is None else mon.permitted, type(e).__name__, str(e)[:80]))
                     res["lib_exc"] = "%s: %s" % (type(e).__name__, e)
                     break
                 if stops:
